@@ -363,6 +363,24 @@ func (p *Program) intrinsic(name string) externalFn {
 			fr.i.ps.notes = append(fr.i.ps.notes, a[0].(string))
 			return nil
 		}
+	case "vpAnd":
+		return func(fr *frame, a []value) value {
+			if x, ok := a[0].(bool); ok {
+				if !x {
+					return false
+				}
+				return a[1]
+			}
+			if y, ok := a[1].(bool); ok {
+				if !y {
+					return false
+				}
+				return a[0]
+			}
+			return mkBool(fr.i.tb.BAnd(fr.i.boolTerm(a[0]), fr.i.boolTerm(a[1])))
+		}
+	case "vpThorough":
+		return func(fr *frame, a []value) value { return fr.i.ps.ex.tier > 0 }
 	case "vpSymbolic":
 		return func(fr *frame, a []value) value { return true }
 	case "vpPoolReuse":
